@@ -146,3 +146,65 @@ def check_cf_model(run, items, name='correspondence:c03.cf'):
     run.cov['cf_model_emitted_calls'] = nstmt
     run.oblige(name, 'correspondence', not dis, json.dumps(dis[:2])[:1800] if dis else '')
     return dis
+
+
+# ------------------------------------------------------------------------------------------------
+# direct correspondence of `_get_block_vars` (Conv.BlockVars.blockVars) on random annotation sets
+# ------------------------------------------------------------------------------------------------
+BV_UNIVERSE = ['a', 'b', 'c', 'x', 'y', 'z', 'i', 'a.b', 'a.b.c', 'd[k]', "d['k']", 'd[0]', 'x.y', 'o.v', 'a[b.c]', 'l[i]',
+               'q[1.5]', 'd[x]', "d['a.b']", 'b.c[x]', 'z[True]', 'y[None].w', "d['it's']", 'o.v.w[i].u']
+
+
+def check_blockvars(run, n, name='correspondence:c03.blockvars'):
+    """Calls the real ControlFlowTransformer._get_block_vars on fabricated annotations (random subsets of a universe
+    of simple and composite qualified names, random function-scope globals/nonlocals) and compares (scope_vars IN
+    ORDER, undefined as a set, nouts) with the model."""
+    import ast, types
+    from malt.converters import control_flow
+    from malt.pyct import anno, qual_names
+    qn = {}
+    for s in BV_UNIVERSE:
+        try:
+            q = qual_names.from_str(s)
+            if str(q) == s:
+                qn[s] = q
+        except Exception:  # noqa  (e.g. the unescaped quote: only producible from a real tree)
+            pass
+    univ = sorted(qn)
+    simple = [s for s in univ if not qn[s].is_composite()]
+    rng = run.rng
+    t = control_flow.ControlFlowTransformer(types.SimpleNamespace(info=None, namer=None, current_origin=None, user=None))
+    lines, expect, cases = [], [], []
+    for k in range(n):
+        p = rng.choice([0.2, 0.4, 0.6])
+
+        def sub(pool, pr):
+            return sorted(s for s in pool if rng.random() < pr)
+        mod, li, lo, di = sub(univ, p), sub(univ, 0.45), sub(univ, 0.4), sub(univ, 0.5)
+        g, nl = sub(simple, 0.12), sub(simple, 0.12)
+        node = ast.Pass()
+        anno.setanno(node, anno.Static.DEFINED_VARS_IN, frozenset(qn[s] for s in di))
+        anno.setanno(node, anno.Static.LIVE_VARS_IN, frozenset(qn[s] for s in li))
+        anno.setanno(node, anno.Static.LIVE_VARS_OUT, frozenset(qn[s] for s in lo))
+        with t.state[control_flow._Function] as fn:
+            fn.scope = types.SimpleNamespace(globals={qn[s] for s in g}, nonlocals={qn[s] for s in nl})
+            sv, und, nouts = t._get_block_vars(node, {qn[s] for s in mod})
+        expect.append(sexp([[str(v) for v in sv], sorted(str(v) for v in und), nouts]))
+        lines.append('c03.blockvars %s %s %s %s %s %s' % tuple(sexp(x) for x in (mod, li, lo, di, g, nl)))
+        cases.append({'modified': mod, 'live_in': li, 'live_out': lo, 'defined_in': di, 'globals': g, 'nonlocals': nl})
+        run.case(('blockvars', tuple(mod), tuple(li), tuple(lo), tuple(di), tuple(g), tuple(nl)), bool(sv))
+    if not run.driver_ok:
+        run.oblige(name, 'correspondence', False, 'driver unavailable')
+        return []
+    dis = []
+    for line, e, c, ans in zip(lines, expect, cases, run.drive(lines)):
+        try:
+            a = parse_sexp(ans)
+            got = sexp([a[0], sorted(a[1]), int(a[2])])
+        except Exception:  # noqa
+            got = ans
+        if got != e:
+            dis.append({'case': c, 'implementation': e, 'model': got})
+    run.cov['blockvars_cases'] = n
+    run.oblige(name, 'correspondence', not dis, json.dumps(dis[:3])[:1500] if dis else '')
+    return dis
